@@ -32,6 +32,8 @@ var vC06Accessors = []string{
 	/*19*/ "IP-header",
 	/*20*/ "IPs",
 	/*21*/ "Subdomains",
+	/*22*/ "Host-forwarded-list",
+	/*23*/ "Hostname-forwarded",
 }
 
 func vToken(name string, n int) string {
@@ -106,6 +108,10 @@ func VH_C06_immutable(caseID int) {
 			if l := c.Subdomains(1); len(l) == 1 {
 				kept = l[0]
 			}
+		case "Host-forwarded-list":
+			kept = c.Host()
+		case "Hostname-forwarded":
+			kept = c.Hostname()
 		}
 		if keptB != nil {
 			inHandler = string(keptB)
@@ -120,7 +126,8 @@ func VH_C06_immutable(caseID int) {
 	rel := map[string]string{"Params": "v", "Params-generic": "v", "Path": "v", "OriginalURL": "vq", "Route-Path": "v", "Protocol": "v",
 		"Query": "q", "Queries": "q", "Cookies": "q", "Get": "h", "GetReqHeaders": "h", "Host": "h", "Hostname": "h", "BaseURL": "h",
 		"Body": "b", "BodyRaw": "b", "Body-identity-encoding": "b", "Method": "v",
-		"IP-validated": "i", "IP-header": "i", "IPs": "i", "Subdomains": "h"}[acc]
+		"IP-validated": "i", "IP-header": "i", "IPs": "i", "Subdomains": "h",
+		"Host-forwarded-list": "h", "Hostname-forwarded": "h"}[acc]
 	tok := func(kind byte, name string, n int, fixed string) string {
 		for i := 0; i < len(rel); i++ {
 			if rel[i] == kind {
@@ -150,6 +157,12 @@ func VH_C06_immutable(caseID int) {
 	fill := func(v, q, h, b string) {
 		fctx.Request.Header.Set("X-Fwd", "10.0.0."+ipd)
 		fctx.Request.Header.Set("X-Forwarded-For", "10.0.0."+ipd+", 10.0.1."+ipd)
+		if acc == "Host-forwarded-list" {
+			fctx.Request.Header.Set("X-Forwarded-Host", h+".fw.io, proxy.io")
+		}
+		if acc == "Hostname-forwarded" {
+			fctx.Request.Header.Set("X-Forwarded-Host", h+".fw.io:8080")
+		}
 		fctx.Request.Header.SetMethod("POST")
 		fctx.Request.SetRequestURI("/u/" + v + "?q=" + q)
 		fctx.Request.Header.SetHost(h + ".io")
@@ -199,6 +212,8 @@ func VH_C06_immutable(caseID int) {
 		want = "10.0.1." + i1
 	case "Subdomains":
 		want = h1
+	case "Host-forwarded-list", "Hostname-forwarded":
+		want = h1 + ".fw.io"
 	}
 	vAssert(inHandler == want, "correct-inside-handler")
 	if !immutable {
